@@ -1,20 +1,24 @@
 MODELS = ['c06_pre.c', 'qt_core.c', 'qt_list.c', 'qt_dom.c', 'c06_models.c']
 def I(name, entry, cfg=(), **kw):
     d = dict(name=name, entry=entry, unwind=8, timeout_s=300, mem_gb=6, bound='')
-    d['cdefs'] = {'QB_CAP': 64}
+    d['cdefs'] = {}
     for i, v in enumerate(cfg): d['cdefs']['C06_CFG%d' % i] = v
     d['cdefs'].update(kw.pop('cdefs', {})); d.update(kw); return d
 SPEC = dict(
     property='C06',
     groups=[
-        dict(name='scram', harness='h_scram.cpp', tus=[], models=MODELS, cxxdefs={'C06_GS2LEN': 8},
+        dict(name='scram', harness='h_scram.cpp', tus=[], models=MODELS, cxxdefs={'C06_GS2LEN': 8}, loop_bounds={r'^_ZN13QConcatenableI10QByteArrayE8appendTo': 48},
              instances=[
                  I('scram_first', 'h_scram_first', (2, 2, 1)),
                  I('scram_first_kf', 'h_scram_first_kf', (2, 2, 1), known_finding='scram_username_unescaped'),
                  I('scram_exchange', 'h_scram_exchange', (2, 1, 1, 3, 2, 1), unwind=12),
                  I('scram_refuse_attrs', 'h_scram_refuse_attrs', (1, 1, 1, 2), unwind=12),
                  I('scram_final_any', 'h_scram_final_any', (1, 1, 1), unwind=12),
-                 I('parse_gs2', 'h_parse_gs2', (), unwind=12),
+             ]),
+        dict(name='mgr', harness='h_mgr.cpp', tus=['src/base/QXmppSasl.cpp', 'src/base/QXmppUtils.cpp'], models=MODELS, ranges_shim=True, shadow_task=True, cxxdefs={'_GLIBCXX_RANGES': 1},
+             instances=[
+                 I('sasl_manager', 'h_sasl_manager', (), unwind=12, cdefs={'C06_SERIALIZE_VIA_HARNESS': 1}),
+                 I('sasl2_manager', 'h_sasl2_manager', (), unwind=12, cdefs={'C06_SERIALIZE_VIA_HARNESS': 1}),
              ]),
     ],
     bounds=[], assumptions=[], outside=[],
